@@ -12,1198 +12,1169 @@ Definition show_fres (r : fres) : string :=
   end.
 Definition check (rs : list rune) : string := digest (show_fres (format_res rs)).
 Definition full (rs : list rune) : string := show_fres (format_res rs).
-Eval vm_compute in ("<<<M1939>>>" ++ check (runes_of_ascii "
-packet
-
-    metadata
-{	repeat
-f64 	 // " ++ [128512]%N ++ runes_of_ascii " emoji
-
-Foo, repeat	Logon  f32a
-`
-`	, 
-@calculatedFrom(
-    ""1""
-
-)  repeat
-uint8 	 // trailing space 
-	calculatedFrom `u8 x,` ,
-
-    char[] packetx ,	// packet A { u8 x, }
-      @calculatedFrom(
-""abc"") Pad@lengthOf(
-    msg_type	) `line1
-line2` ,
-@rightPad
-(
-	' '
-
-    )	tag `" ++ [233]%N ++ runes_of_ascii "`
-, @tag(10
-/// triple
-	)u8x
-    @calculatedFrom( ""CRC32"" )
-,  match
-        // trailing space 
-// trailing space 
-		metadata
-as  msg_type 
-
-//
-      // " ++ [27880; 37322]%N ++ runes_of_ascii "
-
-  {
-    [ ""\n""	//x
-	, 0123456789  // c
-      ]
-
-    :options1 
-, ""\n""
-
-: float
-
-,	} 
+Eval vm_compute in ("<<<M80>>>" ++ check (runes_of_ascii "packet
+A {
+    roots
+{ repeat	char[
+00 ] // `tick` ""quote"" 'q'
+matchKey `crlf
+line`
 ,
-
-}
-
-packet
-    // " ++ [128512]%N ++ runes_of_ascii " emoji
-	// " ++ [128512]%N ++ runes_of_ascii " emoji
-	  MetaDataX  {string string_
-`doc` , 
-@rightPad('0')zchar[ 
-    // " ++ [128512]%N ++ runes_of_ascii " emoji
-    // `tick` ""quote"" 'q'
-	00
-]
-	zchar
-`a\` ,
-
-    } options{
-leftPad
-=	0 float
-    = 4294967296  ; }// `tick` ""quote"" 'q'
-  root
-
-    packet
-	body 
-{ @calculatedFrom(""1""
-
-)@lengthOf(int
-	)
-match float as 
-Z9_	{ 
-// packet A { u8 x, }
-    	// trailing space 
-    	42 : 
-x ""packet"" :// `tick` ""quote"" 'q'
-  matchKey
-
-,
-    """ ++ [28040; 24687]%N ++ runes_of_ascii """
-	    /// triple
-    	// packet A { u8 x, }
-
-: 
-o
-	, 255: float
-    } ,  @tag(
-	0123456789
-	)
-match
-
-calculatedFrom as	// @lengthOf(
-    trueish {[ ""packet""	,
-    ""`tick`"" 	 //x
-  ,
-""" ++ [233]%N ++ runes_of_ascii "t" ++ [233]%N ++ runes_of_ascii """ ]
-
-:MetaDataX
-
-4294967296
-:
-
-    trueish
-,
-
-    3 :
-// trailing space 
-    // packet A { u8 x, }
-	i64_
-,
-0123456789
-
-    :
-	f32a,
-    [ 7
-,//	t
-	10
-    ,
-    ""CRC32""	,""x y"" , 
-""\n"" 
-      // `tick` ""quote"" 'q'
-
-, 
-""CRC32"",
-""`tick`""	] // `tick` ""quote"" 'q'
-  : 
-body
-    ,}
-	,char[
-
-    1	//
-    ]
-
-Foo 	 // " ++ [128512]%N ++ runes_of_ascii " emoji
-
-	,
-
-    @rightPad (
-' ')
-
-    @calculatedFrom(// " ++ [27880; 37322]%N ++ runes_of_ascii "
-	""a	b""
-) repeat
-string_
-{
-    repeat
-Logon 	 // @lengthOf(
-	  ,Z9_
-
-i8i8
-    ,
-match
-    Z9_
-
-as
-    A
-
-{
-    [ 42]  :	Logon,
-    [  ""CRC32""
-
-    , 1 ,""a\""b""
-,
-4294967296
-
-, 0 ,
-""\" ++ [233]%N ++ runes_of_ascii """
-
-    ]
-
-: roots
-    ""a\""b""
-:
-
-MetaDataX
-,255 :
-	_x
-    , 
-65535
-:rootA
-
-    ,
-
-    },match 
-_x as Foo { 
-[ 255
-
-    ,	""" ++ [28040; 24687]%N ++ runes_of_ascii """ ,  // packet A { u8 x, }
-      ""CRC32""
-	, 
-
-// c
-	  """ ++ [233]%N ++ runes_of_ascii "t" ++ [233]%N ++ runes_of_ascii """
-
-    ,
-""abc""] :
-len
-	""a\\"" 
-: Pad
-
-    0
-:
-	falsey
-    , 
-3:
-
-    u128
-,}
-
-, 	 // a // b
-  }
-
-    ,repeat  // packet A { u8 x, }
-
-  options1 int
-`{ , }` 
-    // packet A { u8 x, }
-
-  //
-    	,
-    }
-
-")).
-Eval vm_compute in ("<<<M1908>>>" ++ check (runes_of_ascii "
-
-  options{
-    StringPrefixLenType =
-u16
-;
-	ArrayPrefixLenType=
-u16;
-    }
-packet
-    SampleBinary{ uint16 MsgType  `" ++ [28040; 24687; 31867; 22411]%N ++ runes_of_ascii "` 
-, u16 BodyLenght @lengthOf(
-Body  )
-
-`" ++ [28040; 24687; 20307; 38271; 24230]%N ++ runes_of_ascii "`
-,
-match
-
-    MsgType
-	as	Body{ 1: 
-Logon	, 2  :	Logout
-,
-3
-
-:Heartbeat
-,
-
-4
-    :  RiskControlRequest ,
-5
-:
-
-    RiskControlResponse  , 
-}
-	,
-
-@calculatedFrom( ""CRC32"" )
-u32 Ckecksum
-	`" ++ [26657; 39564; 21644]%N ++ runes_of_ascii "`
-
-, }
-	packet  Logon  { @leftPad(
-
-    '0' )
+}, // @lengthOf(
+@tag( 3
+)
 char[
-10] 
-UserName 
-`" ++ [29992; 25143; 21517]%N ++ runes_of_ascii "`,	string  Password
-
-    `" ++ [23494; 30721]%N ++ runes_of_ascii "`
-, uint64 ClientId
-	`" ++ [23458; 25143; 31471]%N ++ runes_of_ascii "ID` , u16
-	HeartbeatInterval`" ++ [24515; 36339; 38388; 38548]%N ++ runes_of_ascii "` 
-,  } 
-packet 
-Logout
-
-{@rightPad('0' )char[10 ]UserName
-	`" ++ [29992; 25143; 21517]%N ++ runes_of_ascii "`
+    //x
+    255]
+    x
+    // " ++ [128512]%N ++ runes_of_ascii " emoji
+    , @leftPad( '\x00')  repeat	uint16
+// a // b
+//	t
+crc ,
+match u
+    as// @lengthOf(
+pack {[""x y"" , 4294967296 ] : roots [1 ,
+    0 ] : _x ""packet"":
+T  ,  255:
+BodyLength	, ""a	b"" : uint8x ,	}, @rightPad	( '\x00' )
+    u64
+    tag  ,
+} packet trueish { match
+i64_
+as Packet { ""packet"" :// @lengthOf(
+body,65535
+// a // b
+// " ++ [27880; 37322]%N ++ runes_of_ascii "
+: Pad ,
+    10: packetx 3 : pack , 00 : Header
 ,
-uint64	ClientId`" ++ [23458; 25143; 31471]%N ++ runes_of_ascii "ID` ,
-} packet
-	Heartbeat
-{ } 
-packet
-RiskControlRequest
-
-{  string 
-UniqueOrderId
-    `" ++ [21807; 19968; 35746; 21333; 21495]%N ++ runes_of_ascii "`  ,
-char[16  ]
-ClOrdID
-`" ++ [23458; 25143; 35746; 21333; 21495]%N ++ runes_of_ascii "`,	char[
-
-    3 
-]
-	MarketID
-	`" ++ [24066; 22330]%N ++ runes_of_ascii "id` , char[  12 ]
-SecurityID  `" ++ [35777; 21048; 20195; 30721]%N ++ runes_of_ascii "` , char	Side
-
-    `" ++ [20080; 21334; 26041; 21521]%N ++ runes_of_ascii "`
+    3 :// c
+As ,
+    // packet A { u8 x, }
+    }
+,  @lengthOf(MetaDataX  ) i8 stringy//
+`` , @calculatedFrom(
+    ""`tick`"" )
+    @leftPad (
+// a // b
+// trailing space 
+' ') // `tick` ""quote"" 'q'
+char[] calculatedFrom @calculatedFrom( ""// no comment""
+    )
+, } MetaData calculatedFrom
+{pack As	, f32a
+    // `tick` ""quote"" 'q'
+    calculatedFrom, int16 chars
+`say ""hi""` // " ++ [27880; 37322]%N ++ runes_of_ascii "
+, uint16 msg_type`{ , }`
+    /// triple
+    , i32
+o // " ++ [128512]%N ++ runes_of_ascii " emoji
 ,
-
-    char OrderType `" ++ [35746; 21333; 31867; 22411]%N ++ runes_of_ascii "`,u64  Price
-	`" ++ [20215; 26684]%N ++ runes_of_ascii "` 
-,
-	u32
-    Qty
-`" ++ [25968; 37327]%N ++ runes_of_ascii "`
-
-    , repeat string  ExtraInfo
-
-    `" ++ [38468; 21152; 20449; 24687]%N ++ runes_of_ascii "`
-, repeat	SubOrder{char[
-	16 ] ClOrdID `" ++ [23376; 35746; 21333; 21495]%N ++ runes_of_ascii "`
-,
-
-u64  Price
-`" ++ [23376; 35746; 21333; 20215; 26684]%N ++ runes_of_ascii "`, u32 Qty	`" ++ [23376; 35746; 21333; 25968; 37327]%N ++ runes_of_ascii "`, }
-, } packet RiskControlResponse {string
-UniqueOrderId
-
-`" ++ [21807; 19968; 35746; 21333; 21495]%N ++ runes_of_ascii "` ,i32
-    Status
-
-    `" ++ [29366; 24577]%N ++ runes_of_ascii "`
-	,
-string Msg
-`" ++ [32467; 26524; 20449; 24687]%N ++ runes_of_ascii "`
-,repeat
-Detail
-
-    ,
-
-    }packet	Detail
-
-    {
-    string	RuleName `" ++ [35268; 21017; 21517; 31216]%N ++ runes_of_ascii "`
-    ,	u16 
-Code
-`" ++ [21407; 22240; 20195; 30721]%N ++ runes_of_ascii "`  ,
-
-}
-")).
-Eval vm_compute in ("<<<M128>>>" ++ check (runes_of_ascii "root
-packet // " ++ [27880; 37322]%N ++ runes_of_ascii "
-crc
-    {	@lengthOf(	As
-)@calculatedFrom(""\" ++ [233]%N ++ runes_of_ascii """
-    ) zchar[ 4294967296 ]MetaDataX `doc` ,/// triple
-rootA @calculatedFrom( ""it's"" )	,@tag( 65535
-    ) @tag( // c
-7 )@tag( 00
-//
+}packet
+    chars { lengthOf MetaDataX , string len @lengthOf(uint8x ) , @tag( 0123456789 )
+    match
+    stringy
+    as x
+{ 10
+    : lengthOf
+, } , @tag( 7 )  @rightPad ( )
+@tag( 00  ) uint16 crc
+,	int8 trueish @lengthOf(stringy )  ,  repeat i64_ , zchar[ 7 ] T @calculatedFrom(
+""a\""b""
+) // " ++ [27880; 37322]%N ++ runes_of_ascii "
+`two words` ,
+    // a // b
+    @tag( 007	)zchar[ 65535 ]MetaDataX  @lengthOf( len // packet A { u8 x, }
+)
+    `" ++ [233]%N ++ runes_of_ascii "` , char metadata @lengthOf(lengthOf )
+,	} root packet  matchKey { @calculatedFrom(""" ++ [28040; 24687]%N ++ runes_of_ascii """
+// packet A { u8 x, }
 // c
-) len @lengthOf( A ) `two words` ,
+)
+    repeat char[
+// " ++ [27880; 37322]%N ++ runes_of_ascii "
 // trailing space 
-// " ++ [128512]%N ++ runes_of_ascii " emoji
-string	rootA@lengthOf( pack
-// trailing space 
-//	t
-) ,
-// " ++ [128512]%N ++ runes_of_ascii " emoji
-// trailing space 
-repeat zchar ,
-@calculatedFrom( ""abc"" )@leftPad ('\x00' ) @rightPad
-( )match x_y_z
-    as Z9_{
-""it's""
-    :
-Logon//x
-, ""x y"" : Packet,""abc""
-: trueish 4294967296 // @lengthOf(
-:
-    repeatCount """ ++ [128512]%N ++ runes_of_ascii """:  x_y_z
-} , char[ 10 // @lengthOf(
-]
-    stringy	`it's`
-, @leftPad (
-'\x00' )
-rootA @lengthOf(  i64_  )
-    , } MetaData falsey {
-Packet repeatCount `tab	here` ,
-}MetaData string_ {
-    float64 roots `line1
-line2` , char
-As //
-`
-` , zchar[ 65535 ]falsey`a\` ,A
-    T , _x metadata, } packet
-_x // packet A { u8 x, }
-{zchar[255 ] string_@lengthOf(
-//	t
+007] stringy, string a1`doc` , zchar[
+7
+] A,
+@lengthOf(	options1
 // @lengthOf(
-u128 ) `{ , }`	,
-}root packet Packet
-    {repeat // " ++ [128512]%N ++ runes_of_ascii " emoji
-lengthOf , }")).
-Eval vm_compute in ("<<<M1123>>>" ++ check (runes_of_ascii "// top
+// a // b
+) //
+zchar[	00	] // packet A { u8 x, }
+Foo  `two words` , @calculatedFrom(
+""1"" )  @leftPad( ' ' ) @leftPad( ' ' ) repeat u8 options1, uint8 i64_`" ++ [233]%N ++ runes_of_ascii "` ,
+@tag( 10 )
+    @lengthOf( i8i8	)@lengthOf(
+// " ++ [27880; 37322]%N ++ runes_of_ascii "
+// `tick` ""quote"" 'q'
+i64_
+)
+    //x
+    match A as	packetx {
+    10	:
+asx
+, [ ""\n""
+    ,65535 , ""{,}"", 007, ""CRC32"" ] : metadata 00	: o ,
+} // c
+,}
+")).
+Eval vm_compute in ("<<<M88>>>" ++ check (runes_of_ascii "  packet falsey {
+    @leftPad	( )  int8 uint8x
+, zchar[ 10 ] matchKey
+,
+    // c
+    repeat matchKey{ repeat
+i8
+matchKey
+,
+a1 @calculatedFrom( //
+""\n"" ) `two words` ,  } ,a1 { char[]a1, char x_y_z
+    // @lengthOf(
+    ,	zchar[
+65535
+] // a // b
+len`u8 x,`
+,},repeat	MetaDataX
+{	repeat
+leftPad pack,	string i8i8 `say ""hi""` , }// 50% %s
+,
+// " ++ [27880; 37322]%N ++ runes_of_ascii "
+// @lengthOf(
+@leftPad //x
+( '0' ) @lengthOf( BodyLength ) @rightPad
+    ( ' ' // 50% %s
+)
+    char[] // " ++ [128512]%N ++ runes_of_ascii " emoji
+charz , @lengthOf( i8i8
+    ) @calculatedFrom( ""CRC32"" )
+    @lengthOf(	T )metadata ,// 50% %s
+} packet x	{
+@tag( 0123456789	) match tag
+    as Pad { [//x
+""\" ++ [233]%N ++ runes_of_ascii """ , ""a	b""
+    , // " ++ [27880; 37322]%N ++ runes_of_ascii "
+""a\\"", ""{,}"" , 007,  007 ,  0123456789
+    ] // c
+:
+    options1
+    ,	},
+    @leftPad () @lengthOf( charz )
+@tag(
+42  )
+o { i32 msg_type @lengthOf(// `tick` ""quote"" 'q'
+A )
+`` ,
+zchar[
+1 ] charz
+//	t
+//x
+,i8 //x
+packetx `tab	here` ,
+repeat crc rootA , }
+, //	t
+repeat uint8x
+asx
+,
+repeat char[] Foo
+, repeat zchar[ 0123456789
+] u128,
+    match uint8x as _x{ ""packet"" :f32a ,
+    255 :roots ,	[  """ ++ [28040; 24687]%N ++ runes_of_ascii """
+    ,0123456789 ,""CRC32""
+    , 0 , 1 , 255 ]
+:
+    // @lengthOf(
+    Packet,
+""`tick`"" // packet A { u8 x, }
+:
+    metadata ,""x y""
+:rootA}, _x @lengthOf(	crc
+    ), @lengthOf( Logon ) repeat Packet options1, match trueish as
+    lengthOf { 65535: float , } , @tag(
+65535 ) lengthOf @lengthOf(// `tick` ""quote"" 'q'
+a1
+) `tab	here` , }
+")).
+Eval vm_compute in ("<<<M37>>>" ++ check (runes_of_ascii "options {
+packetx/// triple
+= 42; }
+    root packet falsey {@tag( 1 )
+crc { repeat	char[ 007 ] charz // 50% %s
+`it's` , repeat	u8
+    len `
+`
+    , crc trueish	, }	, match
+float as string_ {""x y"" :
+// " ++ [27880; 37322]%N ++ runes_of_ascii "
+//
+zchar , """ ++ [128512]%N ++ runes_of_ascii """
+    // " ++ [128512]%N ++ runes_of_ascii " emoji
+    : string_
+// trailing space 
+// @lengthOf(
+,""CRC32""  : options1
+, [""1"" // c
+] :
+crc
+    , ""packet"" // " ++ [27880; 37322]%N ++ runes_of_ascii "
+: options1 ,  [ 42
+, ""a	b""
+,
+    // trailing space 
+    """ ++ [233]%N ++ runes_of_ascii "t" ++ [233]%N ++ runes_of_ascii """ /// triple
+, ""abc""
+,0123456789, ""{,}""
+, // trailing space 
+00	,""" ++ [233]%N ++ runes_of_ascii "t" ++ [233]%N ++ runes_of_ascii """ // packet A { u8 x, }
+]:	asx },repeat  f64	charz
+, @tag( 10 ) repeat charz
+Logon , @lengthOf( u8x
+) @calculatedFrom( ""a\""b"" )
+    @rightPad // @lengthOf(
+(
+' '
+    ) u8 a1
+`u8 x,` ,	}
+packet	falsey  {
+    repeat
+char[] zchar, @tag( 255 )@calculatedFrom( ""`tick`""
+    )
+char[] asx `say ""hi""`
+    ,
+    u8  As `u8 x,` , // 50% %s
+zchar[00 ]	uint8x @lengthOf( // packet A { u8 x, }
+zchar ) , char[ 255  ]
+uint8x , Pad @lengthOf(
+    // packet A { u8 x, }
+    _x
+    )	`" ++ [233]%N ++ runes_of_ascii "` ,
+    _x,@rightPad (
+    ' ' ) uint16
+BodyLength/// triple
+, @lengthOf( int// " ++ [128512]%N ++ runes_of_ascii " emoji
+) metadata tag , int64	string_ `
+`
+, } root
+packet
+o {} options// packet A { u8 x, }
+{	}
+")).
+Eval vm_compute in ("<<<M1364>>>" ++ check (runes_of_ascii "// top
 options
     // c0
-{
-    // c1
-uint8x
+{ // c1a
+  // c1b
+LittleEndian
     // c2
-=
-    // c3
-007
-    // c4
+= // c3
+true // c4a
+  // c4b
 ;
     // c5
-lengthOf
+StringPrefixLenType
     // c6
-=
-    // c7
-i8
-    // c8
+= // c7a
+  // c7b
+u32 // c8
 ;
     // c9
-}
-    // c10
+ArrayPrefixLenType // c10a
+  // c10b
+= // c11a
+  // c11b
+u64 // c12a
+  // c12b
+; } // c14
 packet
-    // c11
-i64_
-    // c12
-{
-    // c13
-@calculatedFrom(
-    // c14
-""1""
     // c15
-)
-    // c16
-@tag(
-    // c17
-3
+Logon // c16a
+  // c16b
+{ // c17a
+  // c17b
+string
     // c18
-)
-    // c19
-@lengthOf(
-    // c20
-rootA
-    // c21
-)
+OrderId // c19a
+  // c19b
+, // c20a
+  // c20b
+uint32 lastPx
     // c22
-repeat
+,
     // c23
-int8
-    // c24
-Packet
-    // c25
-`u8 x,`
-    // c26
-,
-    // c27
-}
-    // c28
-root
-    // c29
-packet
-    // c30
-stringy
-    // c31
-{
-    // c32
-@rightPad
+repeat // c24
+char[ // c25
+6 ] Side2 // c28
+, // c29a
+  // c29b
+i64 // c30a
+  // c30b
+Tail // c31
+, // c32
+repeat
     // c33
-(
-    // c34
-' '
+i8 // c34
+f1
     // c35
-)
-    // c36
-repeat
+, }
     // c37
-char[
-    // c38
-10
-    // c39
+packet // c38a
+  // c38b
+Party // c39
+{ } packet Quote // c43a
+  // c43b
+{ // c44
+repeat // c45
+char[ 6 ] // c48
+clOrdID // c49
+, repeat Logon // c52
+, // c53
+}
+    // c54
+root // c55
+packet
+    // c56
+Order // c57a
+  // c57b
+{
+    // c58
+zchar[ // c59a
+  // c59b
+5 // c60
 ]
-    // c40
-repeatCount
-    // c41
-,
-    // c42
-@tag(
-    // c43
-255
-    // c44
-)
-    // c45
-float64
-    // c46
-msg_type
-    // c47
-@calculatedFrom(
-    // c48
-""packet""
-    // c49
-)
-    // c50
-,
-    // c51
-}
-    // c52
+    // c61
+Acct ,
+    // c63
+repeat // c64a
+  // c64b
+f64 price ,
+    // c67
+} // c68
 ")).
-Eval vm_compute in ("<<<M228>>>" ++ check (runes_of_ascii "packet
-//
-// " ++ [27880; 37322]%N ++ runes_of_ascii "
-BodyLength  {
-repeat
-    // @lengthOf(
-    zchar[	255]tag `crlf
-line` , } MetaData BodyLength	{
-char[ 65535] //	t
-packetx `" ++ [28040; 24687; 31867; 22411]%N ++ runes_of_ascii "` , } options
-    {
-    metadata =3; // trailing space 
-} packet Packet
-{ o { uint16	Logon
-    , } , @leftPad (  )char[ 0123456789 ]
-a1 `" ++ [28040; 24687; 31867; 22411]%N ++ runes_of_ascii "` // a // b
+Eval vm_compute in ("<<<M282>>>" ++ check (runes_of_ascii "// a // b
+root packet	uint8x
+{ repeat x
+    { tag
+@calculatedFrom( ""// no comment""
+)
+`it's`  , }
 ,
-    repeat string
-lengthOf
-    `{ , }`	,stringy crc
-,@rightPad (
-' ' ) u32	MetaDataX
-    ,
-@rightPad('0' ) tag	{repeat f64 tag `u8 x,`
-, }
-    //	t
-    , char[
-    00 ] uint8x `` , match leftPad  as Header {""" ++ [233]%N ++ runes_of_ascii "t" ++ [233]%N ++ runes_of_ascii """  : Foo
-, [	""\" ++ [233]%N ++ runes_of_ascii """
-, 007
-,00 , 10, ""\" ++ [233]%N ++ runes_of_ascii """ ]: crc
-, [ 1 ,007 , ""a\\""
-    ,
-""packet""
-    ]: //	t
-len // packet A { u8 x, }
-, 10 : MetaDataX
-//x
-// " ++ [128512]%N ++ runes_of_ascii " emoji
-,  }
+    //x
+    A
 //	t
-/// triple
-, } packet
-    i64_{
-@rightPad	('\x00'
-)
-@leftPad(
-) i8 body@calculatedFrom(""" ++ [233]%N ++ runes_of_ascii "t" ++ [233]%N ++ runes_of_ascii """) `it's` , }
 // @lengthOf(
-")).
-Eval vm_compute in ("<<<M4>>>" ++ check (runes_of_ascii "packet
-    // " ++ [128512]%N ++ runes_of_ascii " emoji
-    u128
-{ repeat char[
-// trailing space 
-// packet A { u8 x, }
-65535 ] float ,
-}
-options  { f32a
-= char[] ; } packet// trailing space 
-_x { @rightPad ('0' ) // packet A { u8 x, }
-@lengthOf(i8i8) @lengthOf(lengthOf
-)  repeat	Z9_//x
-`crlf
-line`, string_ {
-// `tick` ""quote"" 'q'
-// c
-zchar[7
-]x_y_z , Header x
-`line1
-line2` ,
-    }, //	t
-@leftPad ( )
-    match float
-as	x_y_z
-{ """ ++ [28040; 24687]%N ++ runes_of_ascii """ : metadata, 007 :
-    A,00 : falsey
-    , 0123456789  : Foo // trailing space 
-,0123456789
-:
-    zchar
-, } ,@calculatedFrom( ""1"" )
-@tag(
-/// triple
-/// triple
-0	) char[
-00 ] options1	, } packet Pad{
-u16
-body
-@lengthOf( stringy // c
-), } options { BodyLength ='0'msg_type =""a\""b"" ; }
-
-")).
-Eval vm_compute in ("<<<M58>>>" ++ check (runes_of_ascii "packet pack
-// c
-// packet A { u8 x, }
-{u8 a1
-// trailing space 
-/// triple
-`say ""hi""` // packet A { u8 x, }
-, @leftPad (
-'\x00' )  uint8 Logon	`
-` // `tick` ""quote"" 'q'
-,
-char[]lengthOf // " ++ [27880; 37322]%N ++ runes_of_ascii "
-`" ++ [233]%N ++ runes_of_ascii "` ,
-//
-//x
-repeat char[] As,
-    //	t
-    @lengthOf(string_ )  @calculatedFrom(
-""a\\"" )
-    repeat
-    u8x	o	, char string_ @calculatedFrom(
-""a\""b"" )
-`tab	here`
-    , repeat As { char[
-    // packet A { u8 x, }
-    0 ] i64_//	t
-@lengthOf( T)
-`" ++ [233]%N ++ runes_of_ascii "` , char[4294967296	]
-T @calculatedFrom( ""\" ++ [233]%N ++ runes_of_ascii """ )
-, trueish
-, repeat int
-{string Logon @calculatedFrom(	""1"" ) , metadata  ,
-uint32
-Z9_  , // " ++ [27880; 37322]%N ++ runes_of_ascii "
-} , },@tag( 00 ) //	t
-i16  a1 `a\`
-    ,
-    }
-")).
-Eval vm_compute in ("<<<M348>>>" ++ check (runes_of_ascii "root // c
-packet asx { @rightPad
-    (
-' ' ) @lengthOf(  int)@tag( 0 ) u64 uint8x @calculatedFrom( ""packet"")
-    ,  uint32 i64_ ,
-    // c
-    repeat options1 o,match f32a as /// triple
-falsey// " ++ [27880; 37322]%N ++ runes_of_ascii "
-{ 42 : stringy 10 :
-As, """" :
-    Packet ,
-} ,@calculatedFrom(""it's""
-) // " ++ [128512]%N ++ runes_of_ascii " emoji
-f64	a1 ,
-    @lengthOf(
-    tag )
-    match roots as MetaDataX
-{
-""" ++ [128512]%N ++ runes_of_ascii """:  f32a
-    , ""\n"" :
-    As [ 255 ]: A ,  }, a1 @calculatedFrom(	""abc"" )
-`` , @rightPad(
-)
-    @rightPad (
-    '\x00'
-)@calculatedFrom(
-""CRC32"" )body As , }  root packet packetx
-{
-//x
-//
-repeat lengthOf Logon `" ++ [28040; 24687; 31867; 22411]%N ++ runes_of_ascii "` , //	t
-}")).
-Eval vm_compute in ("<<<M45>>>" ++ check (runes_of_ascii "
-packet
-tag{ string matchKey `line1
-line2` , @tag( 0 )// c
-@calculatedFrom( ""1"" )@calculatedFrom( // " ++ [128512]%N ++ runes_of_ascii " emoji
-""a\""b"" ) float64 matchKey
-,}options
-{ crc
-    = true
-    msg_type
-    //	t
-    =
-true;
-} packet o { match  roots
-as calculatedFrom { ""// no comment""
-    // packet A { u8 x, }
-    :
-    msg_type	, ""{,}""
-    :u128, [
-    65535 , 0123456789
-]/// triple
-: body ,// " ++ [128512]%N ++ runes_of_ascii " emoji
-} ,@rightPad ( ' '	) repeat
-string_ i64_ ,
-@lengthOf(
-lengthOf )@tag( 255// packet A { u8 x, }
-)	@tag( 00 )
-char[]
-stringy
-, }
-")).
-Eval vm_compute in ("<<<M291>>>" ++ check (runes_of_ascii "root
-// " ++ [27880; 37322]%N ++ runes_of_ascii "
-// @lengthOf(
-packet
-    Packet
-{ string o @calculatedFrom( ""\" ++ [233]%N ++ runes_of_ascii """)
-, @lengthOf( Packet
-    // packet A { u8 x, }
-    ) body @calculatedFrom( // @lengthOf(
-""x y"" )
-`it's` ,
-float64 As @calculatedFrom( ""`tick`""	), char[]	stringy  @calculatedFrom(""" ++ [28040; 24687]%N ++ runes_of_ascii """	) `doc` , @calculatedFrom(""a	b"") match
-float as o{ [ """ ++ [128512]%N ++ runes_of_ascii """
-    ,007]
-    :metadata
-,
-} ,f32a a1 `a\` , }
-MetaData
-repeatCount
-    { packetx i64_ `" ++ [28040; 24687; 31867; 22411]%N ++ runes_of_ascii "` , // " ++ [128512]%N ++ runes_of_ascii " emoji
-zchar[
-3
-] tag ,
-i8i8 int , }
-")).
-Eval vm_compute in ("<<<M1444>>>" ++ check (runes_of_ascii "packet matchKey {
-    float32 float,
-    @calculatedFrom(""a\\"")
-    @rightPad('\x00')
-    i16 tag @calculatedFrom(""abc""),
-    repeat zchar[255] pack,
-    @lengthOf(Z9_)
-    tag,
-}// trailing space 
-
-root packet rootA {
-    repeat metadata {
-        Logon,
-    },
-    @tag(10)
-    @lengthOf(A)
-    @tag(007)
-    u32 options1,
-    match float as u {
-        0123456789 : u8x,
-    },
-}// " ++ [27880; 37322]%N ++ runes_of_ascii "
-
-root packet lengthOf {
-}")).
-Eval vm_compute in ("<<<M1543>>>" ++ check (runes_of_ascii "packet a1 {
-    char[] charz @calculatedFrom(""" ++ [28040; 24687]%N ++ runes_of_ascii """),
-    uint8x `crlf
-        line`,
-    uint64 T `line1
-        line2`,
-    @leftPad('0')
-    // a // b
-    /// triple
-    @calculatedFrom(""abc"")
-    @tag(3)
-    match int as len {
-        0 : chars,
-        [
-            10, ""a\\"", 1, 0, 10,
-            0
-        ] : body,
-        007 : rootA,
-    },
-    falsey options1,
-}")).
-Eval vm_compute in ("<<<M1963>>>" ++ check (runes_of_ascii "
-options  {
-    LittleEndian= true
-    ;StringPrefixLenType=
-    u16
-
-;
-FixedStringPadChar = ' ';
-	}  packet Logon {
-    @leftPad ('0'
-
-    )char[ 10 ]  tag7 , }root
-	packet Ack {
-	int32
-Px	, uint16 
-count ,
-string 
-Qty
-
-,
-
-    string OrderId,
-string 
-Flags
-,
-
-u8
-x ,	match	x  as Body	{ [
-    58
-    , 169
-
-    ] 
-:
-Logon
-
-,}
-
-,  }
-
-")).
-Eval vm_compute in ("<<<M1790>>>" ++ check (runes_of_ascii "options {
-    u = 7
+@calculatedFrom(// trailing space 
+""abc"") , uint64 zchar,
+//	t
+//	t
+zchar[7 ] msg_type , @calculatedFrom( """ ++ [28040; 24687]%N ++ runes_of_ascii """
     // " ++ [27880; 37322]%N ++ runes_of_ascii "
-    roots = zchar[65535]
-    msg_type = """ ++ [233]%N ++ runes_of_ascii "t" ++ [233]%N ++ runes_of_ascii """;
-    x = false
+    )
+crc
+,
+    // `tick` ""quote"" 'q'
+    f32a Pad
+,	Header
+// 50% %s
+//x
+, // trailing space 
+zchar[42] x
+@calculatedFrom( ""\n"")`" ++ [28040; 24687; 31867; 22411]%N ++ runes_of_ascii "` , string len
+,
+    } packet
+    falsey {
+    // " ++ [27880; 37322]%N ++ runes_of_ascii "
+    i64_ @calculatedFrom(
+    ""{,}"" ) , repeat
+string chars,
+    // `tick` ""quote"" 'q'
+    zchar[ 7 ] calculatedFrom
+    ,Header
+    { char u
+    `crlf
+line` , repeat char[]	tag `a\` ,
+    Z9_ @lengthOf(T) // " ++ [27880; 37322]%N ++ runes_of_ascii "
+`say ""hi""`
+,
+}
+,
+/// triple
+// " ++ [27880; 37322]%N ++ runes_of_ascii "
+msg_type @calculatedFrom( ""// no comment""
+) ,
+@rightPad( '\x00' ) @lengthOf(
+asx)
+falsey ,
+} // a // b")).
+Eval vm_compute in ("<<<M1197>>>" ++ check (runes_of_ascii "// top
+options
+    // c0
+{ } // c2a
+  // c2b
+MetaData // c3a
+  // c3b
+packetx { int // c6a
+  // c6b
+falsey
+    // c7
+`two words` , // c9
+int32 // c10
+trueish // c11a
+  // c11b
+,
+    // c12
+char[] // c13a
+  // c13b
+u8x , A // c16a
+  // c16b
+x
+    // c17
+`// not a comment` // c18a
+  // c18b
+, // c19
+} // c20a
+  // c20b
+root // c21a
+  // c21b
+packet // c22
+i8i8 { @lengthOf( repeatCount // c26
+) // c27a
+  // c27b
+@tag( // c28
+1 // c29
+) @calculatedFrom(
+    // c31
+""a	b""
+    // c32
+) // c33
+string // c34a
+  // c34b
+stringy // c35
+@calculatedFrom(
+    // c36
+""\n"" // c37a
+  // c37b
+) // c38a
+  // c38b
+`line1
+line2`
+    // c39
+, // c40
+pack // c41
+`100% of %d` // c42
+,
+    // c43
+} // c44
+")).
+Eval vm_compute in ("<<<M1428>>>" ++ check (runes_of_ascii "options{  lengthOf// " ++ [128512]%N ++ runes_of_ascii " emoji
+=// `tick` ""quote"" 'q'
+true
+; string_=""a\\""
+
+    ; }root
+
+    packet	zchar 
+{ string_  // " ++ [27880; 37322]%N ++ runes_of_ascii "
+  	{
+match 
+      //
+    //x
+      x as 
+string_
+
+    { 
+
+    //	t
+
+	0
+:zchar ,
+
 }
 
-MetaData string_ {
-    char[42] i8i8 `" ++ [28040; 24687; 31867; 22411]%N ++ runes_of_ascii "`,
-    u8 x_y_z,
-    packetx lengthOf ``,
-    T Header `line1
-    line2`,
-    char[] u8x `two words`,
+    ,
+	}	,@calculatedFrom(
+""CRC32"" )
+	@tag(
+42
+
+    ) 
+repeat char[4294967296
+	] u `say ""hi""`
+, 
+// 50% %s
+
+@tag(3
+)	@leftPad
+	( 
+' ' 
+)
+	@tag(	// `tick` ""quote"" 'q'
+	42
+
+    )match Header
+    as A
+    { 
+42 : Logon
+,
+    } ,
+	@tag(	4294967296
+
+    ) i64_ 
+`doc`
+
+, }	root packet	x_y_z { @calculatedFrom(
+""// no comment"" )
+@leftPad( ) @lengthOf(int
+    )  //	t
+	  u8x  `" ++ [28040; 24687; 31867; 22411]%N ++ runes_of_ascii "`, }
+")).
+Eval vm_compute in ("<<<M1305>>>" ++ check (runes_of_ascii "// top
+packet // c0a
+  // c0b
+A
+    // c1
+{ // c2
+u8 // c3a
+  // c3b
+a // c4
+, // c5
+} // c6
+packet
+    // c7
+B
+    // c8
+{
+    // c9
+u16 // c10a
+  // c10b
+b , } root // c14a
+  // c14b
+packet // c15
+P // c16a
+  // c16b
+{ u8 K1
+    // c19
+, // c20
+u8
+    // c21
+K2
+    // c22
+,
+    // c23
+match
+    // c24
+K1 as M1 { // c28a
+  // c28b
+1
+    // c29
+:
+    // c30
+A // c31a
+  // c31b
+, } // c33a
+  // c33b
+,
+    // c34
+match
+    // c35
+K2 // c36
+as // c37
+M2 // c38
+{ 1 : B // c42a
+  // c42b
+,
+    // c43
+} // c44a
+  // c44b
+, // c45
+}
+    // c46
+")).
+Eval vm_compute in ("<<<M1157>>>" ++ check (runes_of_ascii "// top
+MetaData
+    // c0
+msg_type
+    // c1
+{
+    // c2
+int32
+    // c3
+As
+    // c4
+`crlf
+line`
+    // c5
+,
+    // c6
+MetaDataX
+    // c7
+x
+    // c8
+`a\`
+    // c9
+,
+    // c10
+int8
+    // c11
+_x
+    // c12
+,
+    // c13
+char[]
+    // c14
+As
+    // c15
+`u8 x,`
+    // c16
+,
+    // c17
+zchar[
+    // c18
+3
+    // c19
+]
+    // c20
+uint8x
+    // c21
+,
+    // c22
+As
+    // c23
+Foo
+    // c24
+,
+    // c25
+}
+    // c26
+root
+    // c27
+packet
+    // c28
+repeatCount
+    // c29
+{
+    // c30
+}
+    // c31
+")).
+Eval vm_compute in ("<<<M1667>>>" ++ check (runes_of_ascii "
+MetaData
+	body
+    {//x
+    asx As
+
+,  Foo
+	calculatedFrom ``
+,
+packetx pack	`{ , }` ,	// packet A { u8 x, }
+  	u8x
+
+falsey
+    `say ""hi""` ,  float32	float`line1
+line2` 
+,
+    char[] u
+`it's`,
+    }
+    packet  
+  // a // b
+  asx{ uint32
+pack 
+@calculatedFrom(
+    ""CRC32"" ) `line1
+line2`  ,
+char[ 
+65535/// triple
+]
+
+roots// @lengthOf(
+	,
+    Z9_
+	zchar// trailing space 
+    ,repeat
+    uint64// 50% %s
+	float `line1
+line2` ,} root
+	packet
+
+options1 {}
+
+")).
+Eval vm_compute in ("<<<M186>>>" ++ check (runes_of_ascii "// @lengthOf(
+packet  Pad{
+    string_ @calculatedFrom( """ ++ [128512]%N ++ runes_of_ascii """ ),
+//	t
+// c
+char[ 255
+] metadata@calculatedFrom( ""1"" )
+// trailing space 
+// 50% %s
+`line1
+line2` ,	@rightPad (
+'0'
+)
+    @lengthOf(metadata ) @tag(
+007 ) repeat char[0
+]MetaDataX, uint8x, @tag(
+0 ) f32 uint8x
+@lengthOf( roots
+    ), repeat Packet
+//x
+// " ++ [27880; 37322]%N ++ runes_of_ascii "
+,MetaDataX `line1
+line2`,
+@lengthOf(int )string len`// not a comment`  , char[ 3 // c
+]
+    Pad, // " ++ [27880; 37322]%N ++ runes_of_ascii "
+}
+")).
+Eval vm_compute in ("<<<M319>>>" ++ check (runes_of_ascii "
+MetaData chars {
+char[]f32a	`" ++ [28040; 24687; 31867; 22411]%N ++ runes_of_ascii "` ,
+zchar[ 255 ] calculatedFrom , // @lengthOf(
+a1
+metadata
+    ,
+    // a // b
+    u i64_ `
+` , A asx `100% of %d` , }
+    // `tick` ""quote"" 'q'
+    MetaData int //x
+{ char[] As
+// 50% %s
+// @lengthOf(
+`// not a comment` , }
+MetaData
+    Header { int16
+charz
+    , uint64 u8x
+    // c
+    ,	string zchar , float64 options1 `// not a comment`,uint64 stringy , }
+")).
+Eval vm_compute in ("<<<M304>>>" ++ check (runes_of_ascii "  options { }
+root packet chars { @rightPad ('0'	)chars f32a
+`say ""hi""`, int16 u8x , @tag(4294967296)
+@rightPad// packet A { u8 x, }
+() u64 packetx
+    @calculatedFrom(  ""it's"" ), @calculatedFrom(
+    // `tick` ""quote"" 'q'
+    ""\n"" ) o @calculatedFrom( ""a\""b"" )
+, Logon
+@lengthOf(BodyLength), }
+options
+{ } MetaData zchar{u64 MetaDataX`// not a comment` ,	} 	 ")).
+Eval vm_compute in ("<<<M138>>>" ++ check (runes_of_ascii "packet falsey
+    { repeat f32 msg_type,
+    // `tick` ""quote"" 'q'
+    } options  {	x = false // trailing space 
+;//	t
+A = 0123456789	;
+}packet stringy { u128 int
+// @lengthOf(
+// @lengthOf(
+, } MetaData A { u16 o ,	A u8x
+    ,
+string roots , options1 u128 `line1
+line2` ,char[] msg_type
+``
+, roots rootA `{ , }` ,// @lengthOf(
+}")).
+Eval vm_compute in ("<<<M1424>>>" ++ check (runes_of_ascii "
+packet leftPad
+
+{ @leftPad
+	(' '
+)@calculatedFrom( """ ++ [28040; 24687]%N ++ runes_of_ascii """ ) 
+zchar[ 4294967296	]string_
+	,
+	metadata
+
+{  tag
+
+@lengthOf(
+body 
+)
+
+`two words`
+    ,}
+    ,
+	@tag( 255
+
+    ) int16 
+asx  @calculatedFrom(  ""a	b"" ) 
+      // `tick` ""quote"" 'q'
+	// `tick` ""quote"" 'q'
+`{ , }` 	 // c
+,
+
+} ")).
+Eval vm_compute in ("<<<M1325>>>" ++ check (runes_of_ascii "packet MDSnapshotZZ {
+    u8 a,
+}
+packet OrderACK {
+    u16 b,
+}
+packet HTTPServerInfo {
+    string s,
+}
+root packet FIXMsg {
+    u8 KType,
+    MDSnapshotZZ,
+    repeat OrderACK,
+    match KType as Body {
+        1 : HTTPServerInfo,
+        2 : OrderACK,
+    },
+}
+")).
+Eval vm_compute in ("<<<M437>>>" ++ check (runes_of_ascii "packet
+    asx { @calculatedFrom(
+""""  ) @tag( 255 )repeat
+// packet A { u8 x, }
+// trailing space 
+int16 int16 u8x
+,
+@tag(
+    //
+    007 )
+    @tag( 0
+    /// triple
+    ) @tag( 1) u
+    @lengthOf( T ),
+// `tick` ""quote"" 'q'
+//x
+} // " ++ [128512]%N ++ runes_of_ascii " emoji")).
+Eval vm_compute in ("<<<M492>>>" ++ check (runes_of_ascii "packet
+    asx { @calculatedFrom(
+""""  ) @tag( 255 )repeat
+// packet A { u8 x, }
+// trailing space 
+int16 u8x
+,
+@tag(
+    //
+    007 )
+    @tag( 0
+    /// triple
+    ) @tag( 1) ) u
+    @lengthOf( T ),
+// `tick` ""quote"" 'q'
+//x
+} // " ++ [128512]%N ++ runes_of_ascii " emoji")).
+Eval vm_compute in ("<<<M438>>>" ++ check (runes_of_ascii "packet
+    asx { @calculatedFrom(
+""""  ) @tag( 255 )repeat
+// packet A { u8 x, }
+// trailing space 
+u8x int16
+,
+@tag(
+    //
+    007 )
+    @tag( 0
+    /// triple
+    ) @tag( 1) u
+    @lengthOf( T ),
+// `tick` ""quote"" 'q'
+//x
+} // " ++ [128512]%N ++ runes_of_ascii " emoji")).
+Eval vm_compute in ("<<<M446>>>" ++ check (runes_of_ascii "packet
+    asx { @calculatedFrom(
+""""  ) @tag( 255 )repeat
+// packet A { u8 x, }
+// trailing space 
+int16 u8x
+
+@tag(
+    //
+    007 )
+    @tag( 0
+    /// triple
+    ) @tag( 1) u
+    @lengthOf( T ),
+// `tick` ""quote"" 'q'
+//x
+} // " ++ [128512]%N ++ runes_of_ascii " emoji")).
+Eval vm_compute in ("<<<M1773>>>" ++ check (runes_of_ascii "options {
+    i8i8 = ""\n""
+    Header = ""x y"";/// triple
+}
+
+root packet A {
+    match charz as T {
+        //
+        0 : options1,
+        // `tick` ""quote"" 'q'
+    },
 }
 
 packet float {
-    calculatedFrom,
-    @rightPad('0')
-    char[3] u128,
+    @rightPad()
+    repeat metadata `u8 x,`,
 }")).
-Eval vm_compute in ("<<<M130>>>" ++ check (runes_of_ascii "packet zchar { @lengthOf( a1
-// " ++ [128512]%N ++ runes_of_ascii " emoji
-//	t
-) i64_ @lengthOf( Header )
-`" ++ [28040; 24687; 31867; 22411]%N ++ runes_of_ascii "`, charz`" ++ [233]%N ++ runes_of_ascii "` , char[007] i64_ , tag  { u16  matchKey // " ++ [27880; 37322]%N ++ runes_of_ascii "
-,match Pad as lengthOf { [""CRC32"" ,	""abc""
-] : Packet
-,	}
-, }
-    , } MetaData body {char[
-    10 ]u128
-    `doc`
-    ,
-/// triple
-//x
-} //x")).
-Eval vm_compute in ("<<<M242>>>" ++ check (runes_of_ascii "packet len{} options	{ Z9_ =  4294967296;
-_x =// a // b
-0
-    f32a = zchar[42	] ; } root packet
-    // @lengthOf(
-    BodyLength // trailing space 
-{ }options {
-string_ =u32	;	charz =
-/// triple
-// packet A { u8 x, }
-string
-; } packet len { }")).
-Eval vm_compute in ("<<<M18>>>" ++ check (runes_of_ascii "packet roots
-// a // b
-// " ++ [128512]%N ++ runes_of_ascii " emoji
-{ // " ++ [27880; 37322]%N ++ runes_of_ascii "
-@tag(0
-)
-    repeat // `tick` ""quote"" 'q'
-zchar[
-/// triple
-//x
-0
-]x , } options { As =""\" ++ [233]%N ++ runes_of_ascii """ ;pack = ' ' ; int = // `tick` ""quote"" 'q'
-'\x00' ; options1 =
-""`tick`"" ; }")).
-Eval vm_compute in ("<<<M1524>>>" ++ check (runes_of_ascii "root packet
-_x{ uint32 trueish@calculatedFrom(
-    ""1""
-)	`crlf
-line`  ,
-	} 
-
-//
-      packet Header
+Eval vm_compute in ("<<<M117>>>" ++ check (runes_of_ascii "packet a1 { repeat o o
+, i8
+falsey ,
+repeat u64 MetaDataX
+, // trailing space 
+}
+    packet
+    // " ++ [27880; 37322]%N ++ runes_of_ascii "
+    int {	tag @calculatedFrom( ""a\\"" ) ,
+    matchKey , trueish// trailing space 
+options1,
+u64 Logon  , }")).
+Eval vm_compute in ("<<<M294>>>" ++ check (runes_of_ascii "
+options  { Packet =u16 ;
+f32a
+    //
+    =
+""a\""b"" lengthOf= '0'
+; uint8x =
+    i8 uint8x ='\x00'; } packet
+    rootA {
+} options
 {
-    repeat
-    u64
-	stringy
-	`// not a comment`
-, 
-float32
-
-    msg_type, }
+uint8x =
+    // a // b
+    ""\" ++ [233]%N ++ runes_of_ascii """ } MetaData Packet {}
 ")).
-Eval vm_compute in ("<<<M1780>>>" ++ check (runes_of_ascii "MetaData x {
+Eval vm_compute in ("<<<M1408>>>" ++ check (runes_of_ascii "packet T {
 }
 
-packet rootA {
-    i64 As @lengthOf(A) `// not a comment`,
-}
-
-options {
-    asx = string;
-    i8i8 = zchar[0123456789];
-    Foo = 10;
-    As = true;
+MetaData lengthOf {
+    char[4294967296] a1,
+    float64 body `100% of %d`,
+    asx Foo,
+    u8x pack,
+    zchar[0123456789] Z9_,
+    char As `crlf
+    line`,
 }")).
-Eval vm_compute in ("<<<M396>>>" ++ check (runes_of_ascii "packet uint8x uint8x
-{ match pack
-    as msg_type	{
-    0123456789 :	float
+Eval vm_compute in ("<<<M637>>>" ++ check (runes_of_ascii "MetaData u
+    { } MetaData o
+{ float uint8x
+`100% of %d` ,repeatCount u8x, string_ leftPad
+, i32
+    Foo Foo , int64 x `two words` , calculatedFrom
+stringy `a\` ,
 }
-,
-} packet //	t
-a1
-    { } options {packetx
-    = '\x00'	; u128= ""a	b""  ; }
 ")).
-Eval vm_compute in ("<<<M651>>>" ++ check (runes_of_ascii "// @lengthOf(
-packet i8i8 { u128 o , }
-options { MetaDataX MetaDataX = true;
-    BodyLength =""packet"" x_y_z= 007
-crc //x
-= ""abc"" ;
-    msg_type =
-i16 }")).
-Eval vm_compute in ("<<<M541>>>" ++ check (runes_of_ascii "packet uint8x
-{ match pack
-    as msg_type	{
-    0123456789 :	float
+Eval vm_compute in ("<<<M700>>>" ++ check (runes_of_ascii "MetaData u
+    { } MetaData o
+{ float uint8x
+`100% of %d` ,# repeatCount u8x, string_ leftPad
+, i32
+    Foo , int64 x `two words` , calculatedFrom
+stringy `a\` ,
 }
-,
-} packet //	t
-a1
-    { } options {packetx
-    = '\x0" ++ [233]%N ++ runes_of_ascii "0'	; u128= ""a	b""  ; }
 ")).
-Eval vm_compute in ("<<<M497>>>" ++ check (runes_of_ascii "packet uint8x
-{ match pack
-    as msg_type	{
-    0123456789 :	float
+Eval vm_compute in ("<<<M614>>>" ++ check (runes_of_ascii "MetaData u
+    { } MetaData o
+{ float uint8x
+`100% of %d` ,repeatCount u8x[ string_ leftPad
+, i32
+    Foo , int64 x `two words` , calculatedFrom
+stringy `a\` ,
 }
-,
-} packet //	t
-a1
-    { } options {packetx
-    '\x00' =	; u128= ""a	b""  ; }
 ")).
-Eval vm_compute in ("<<<M272>>>" ++ check (runes_of_ascii "packet _x	{ } packet BodyLength { int64
-Packet
-@lengthOf( float ),
-options1 /// triple
-{rootA x	, u8
-Packet @calculatedFrom( """ ++ [28040; 24687]%N ++ runes_of_ascii """) `it's`  ,
-} , }")).
-Eval vm_compute in ("<<<M674>>>" ++ check (runes_of_ascii "// @lengthOf(
-packet i8i8 { { u128 o , }
-options { MetaDataX = true;
-    BodyLength =""packet"" x_y_z= 007
-crc //x
-= ""abc"" ;
-    msg_type =
-i16 }")).
-Eval vm_compute in ("<<<M681>>>" ++ check (runes_of_ascii "// @lengthOf(
-packet i8i8 { u128 o , }
-options { MetaDataX = true;
-    BodyLength =""packet"" x_y_z= 007
-crc //x
-= ""abc"" ;
-    msg_type i16
-= }")).
-Eval vm_compute in ("<<<M706>>>" ++ check (runes_of_ascii "// @lengthOf(
-packet i8i8 { u128 o , }
-options { MetaDataX = ;
-    BodyLength =""packet"" x_y_z= 007
-crc //x
-= ""abc"" ;
-    msg_type =
-i16 }")).
-Eval vm_compute in ("<<<M16>>>" ++ check (runes_of_ascii "options { }MetaData u8x { uint8x	body`crlf
-line`
-    //	t
-    , calculatedFrom body ,
+Eval vm_compute in ("<<<M679>>>" ++ check (runes_of_ascii "MetaData u
+    { } MetaData o
+{ float uint8x
+`100% of %d` ,repeatCount u8x, string_ leftPad
+, i32
+    Foo , int64 x `two words` , calculatedFrom
+stringy i32 ,
 }
-    options  {
-} root packet options1
-{  }")).
-Eval vm_compute in ("<<<M1538>>>" ++ check (runes_of_ascii "packet
-A
-
-{
-match  k
-as
-
-n{
-    [ 1  ,22, 
-007
-,
-	4  ,
-5
-
-, 66 ,
-
-7 , 
-8
-
-    ,	9 ,10 , 11
-,
-	12
-    ]
-:
-B
-2	: C
-} ,  }")).
-Eval vm_compute in ("<<<M1189>>>" ++ check (runes_of_ascii "MetaData leftPad { chars MetaDataX , } packet repeatCount { char[ 255 ] uint8x `" ++ [233]%N ++ runes_of_ascii "` , } MetaData pack { As Foo , } // c
 ")).
-Eval vm_compute in ("<<<M1167>>>" ++ check (runes_of_ascii "MetaData leftPad { chars MetaDataX , } packet repeatCount { char[ 255 ] // c
-uint8x `" ++ [233]%N ++ runes_of_ascii "` , } MetaData pack { As Foo , }")).
-Eval vm_compute in ("<<<M302>>>" ++ check (runes_of_ascii "packet string_{@lengthOf(	float ) // @lengthOf(
-BodyLength { match uint8x as i64_ { 0123456789
-: As
-    , } , } , }")).
-Eval vm_compute in ("<<<M919>>>" ++ check (runes_of_ascii "packet A {
-    u16 len @lengthOf(body) `a
-b`,
-    u32 crc @calculatedFrom(""CRC32"") `a
-b`,
-    string body,
-}")).
-Eval vm_compute in ("<<<M926>>>" ++ check (runes_of_ascii "packet A {
-    Inner {
-        u8 x `a
-b`,
-        Deep {
-            u8 y `a
-b`,
-        },
+Eval vm_compute in ("<<<M616>>>" ++ check (runes_of_ascii "MetaData u
+    { } MetaData o
+{ float uint8x
+`100% of %d` ,repeatCount u8x,  leftPad
+, i32
+    Foo , int64 x `two words` , calculatedFrom
+stringy `a\` ,
+}
+")).
+Eval vm_compute in ("<<<M666>>>" ++ check (runes_of_ascii "MetaData u
+    { } MetaData o
+{ float uint8x
+`100% of %d` ,repeatCount u8x, string_ leftPad
+, i32
+    Foo , int64 x `two words` , 
+stringy `a\` ,
+}
+")).
+Eval vm_compute in ("<<<M1510>>>" ++ check (runes_of_ascii "packet A {
+    match k as n {
+        [
+            1, ""bb"", 007, ""d"", 5,
+            ""f"", 7, ""h"", 9
+        ] : B,
+        2 : C,
     },
 }")).
-Eval vm_compute in ("<<<M634>>>" ++ check (runes_of_ascii "
-packet
-    asx {matc@lengthOfh u128 as lengthOf
-{
-//	t
-// `tick` ""quote"" 'q'
-255 : x ,
-    } ,	}")).
-Eval vm_compute in ("<<<M600>>>" ++ check (runes_of_ascii "
-packet
-    asx {match u128 as lengthOf
-{
-//	t
-// `tick` ""quote"" 'q'
-255 packet x ,
-    } ,	}")).
-Eval vm_compute in ("<<<M560>>>" ++ check (runes_of_ascii "
-packet
-    false {match u128 as lengthOf
-{
-//	t
-// `tick` ""quote"" 'q'
-255 : x ,
-    } ,	}")).
-Eval vm_compute in ("<<<M873>>>" ++ check (runes_of_ascii "packet A {
+Eval vm_compute in ("<<<M1296>>>" ++ check (runes_of_ascii "// top
+root // c0
+packet P // c2a
+  // c2b
+{ // c3a
+  // c3b
+string
+    // c4
+s // c5a
+  // c5b
+, // c6a
+  // c6b
+} // c7a
+  // c7b
+")).
+Eval vm_compute in ("<<<M252>>>" ++ check (runes_of_ascii "options
+{ zchar = ' ' ;trueish =
+    false ;packetx = 007 // packet A { u8 x, }
+; Logon=	true	Z9_ =
+    zchar[ 7
+    ]	}")).
+Eval vm_compute in ("<<<M959>>>" ++ check (runes_of_ascii "packet A {
+    u16 len @lengthOf(body) `tab
+	x`,
+    u32 crc @calculatedFrom(""CRC32"") `tab
+	x`,
+    string body,
+}")).
+Eval vm_compute in ("<<<M1226>>>" ++ check (runes_of_ascii "options { } options { MetaDataX = char ; } MetaData Pad
+// c
+{ i8 metadata , string stringy , int8 As `{ , }` , }")).
+Eval vm_compute in ("<<<M912>>>" ++ check (runes_of_ascii "packet A {
   match k as n {
-    [1, 22, ""c c"", 4, 5, ""f"", 7, 8, ""i""] : B,
+    [""a"", ""bb"", 007, ""d"", ""e"", 66, ""g"", ""h"", 9, ""j"", ""k"", 12] : B,
     2 : C
   },
 }")).
-Eval vm_compute in ("<<<M612>>>" ++ check (runes_of_ascii "
-packet
-    asx {match u128 as lengthOf
-{
-//	t
-// `tick` ""quote"" 'q'
-255 : x ,
-     ,	}")).
-Eval vm_compute in ("<<<M1246>>>" ++ check (runes_of_ascii "options {
-    LittleEndian = true;
-}
-root packet P {
-    repeat char cs,
-    u8 x,
-}
-")).
-Eval vm_compute in ("<<<M816>>>" ++ check (runes_of_ascii "packet A {
+Eval vm_compute in ("<<<M895>>>" ++ check (runes_of_ascii "packet A {
   match k as n {
-    [""a"", ""bb"", ""c c"", ""d"", ""e""] : B
+    [""a"", 22, ""c c"", 4, ""e"", 66, ""g"", 8, ""i"", 10, ""k""] : B,
+    2 : C
+  },
+}")).
+Eval vm_compute in ("<<<M177>>>" ++ check (runes_of_ascii "MetaData
+    matchKey
+    //x
+    {	i64 float `crlf
+line` ,//	t
+leftPad
+asx ,
+uint8x leftPad  ,}
+")).
+Eval vm_compute in ("<<<M903>>>" ++ check (runes_of_ascii "packet A {
+  match k as n {
+    [1, 22, 007, 4, 5, 66, 7, 8, 9, 10, 11, 12] : B
     2 : C
   },
 }")).
 Eval vm_compute in ("<<<M840>>>" ++ check (runes_of_ascii "packet A {
   match k as n {
-    [1, 22, 007, 4, 5, 66, 7] : B
+    [""a"", ""bb"", ""c c"", ""d"", ""e"", ""f"", ""g""] : B
     2 : C
   },
 }")).
-Eval vm_compute in ("<<<M459>>>" ++ check (runes_of_ascii "packet uint8x
-{ match pack
-    as msg_type	{
-    0123456789 :	float
-}
-,")).
-Eval vm_compute in ("<<<M1283>>>" ++ check (runes_of_ascii "root packet P {
-    u16 a,
-    u32 Sum @calculatedFrom(""CR\
-C32""),
-}
-")).
-Eval vm_compute in ("<<<M1101>>>" ++ check (runes_of_ascii "// top
-MetaData
-    // c0
-tag
-    // c1
-{
-    // c2
-}
-    // c3
-")).
-Eval vm_compute in ("<<<M948>>>" ++ check (runes_of_ascii "packet A {
-    B b `x
-`,
-    B `x
-`,
-    repeat B bs `x
-`,
+Eval vm_compute in ("<<<M1105>>>" ++ check (runes_of_ascii "packet A { match k as n // a
+ { // b
+ 1 // c
+ : // d
+ B // e
+ , // f
+ } // g
+ , // h
+ }")).
+Eval vm_compute in ("<<<M842>>>" ++ check (runes_of_ascii "packet A {
+  match k as n {
+    [1, ""bb"", 007, ""d"", 5, ""f"", 7] : B
+    2 : C
+  },
 }")).
-Eval vm_compute in ("<<<M764>>>" ++ check (runes_of_ascii "float32 true uint8 f32 i64 i32 @leftPad ) char[ } uint8")).
-Eval vm_compute in ("<<<M1207>>>" ++ check (runes_of_ascii "packet body { i32 f32a // c
-`{ , }` , } options { }")).
-Eval vm_compute in ("<<<M927>>>" ++ check (runes_of_ascii "MetaData M {
+Eval vm_compute in ("<<<M359>>>" ++ check (runes_of_ascii "options
+    //
+    { MetaDataX // " ++ [128512]%N ++ runes_of_ascii " emoji
+= false crc = char[]
+// a // b
+//x
+}")).
+Eval vm_compute in ("<<<M1178>>>" ++ check (runes_of_ascii "// top
+options // c0
+{ // c1
+A // c2
+= // c3
+""// no comment"" // c4
+} // c5
+")).
+Eval vm_compute in ("<<<M610>>>" ++ check (runes_of_ascii "MetaData u
+    { } MetaData o
+{ float uint8x
+`100% of %d` ,repeatCount")).
+Eval vm_compute in ("<<<M1291>>>" ++ check (runes_of_ascii "root packet P {
+    u16 a,
+    u32 Sum @calculatedFrom(""CRC32""),
+}
+")).
+Eval vm_compute in ("<<<M1645>>>" ++ check (runes_of_ascii "root packet uint8x {
+    string stringy @lengthOf(matchKey),
+}")).
+Eval vm_compute in ("<<<M1775>>>" ++ check (runes_of_ascii "root packet P {
+    hdr {
+        u8 a,
+    },
+    u8 x,
+}")).
+Eval vm_compute in ("<<<M1859>>>" ++ check (runes_of_ascii "packet A {
+    u8 x `a
+            b
+          c`,
+}")).
+Eval vm_compute in ("<<<M919>>>" ++ check (runes_of_ascii "MetaData M {
     u8 x `a
 b`,
     T t `a
 b`,
 }")).
-Eval vm_compute in ("<<<M1223>>>" ++ check (runes_of_ascii "// top
-packet // c0
-x { // c2
-}
-    // c3
-")).
-Eval vm_compute in ("<<<M708>>>" ++ check (runes_of_ascii "// @lengthOf(
-packet i8i8 { u128 o ,")).
-Eval vm_compute in ("<<<M1883>>>" ++ check (runes_of_ascii "
-
-  packet A{u8 x`d" ++ [8287]%N ++ runes_of_ascii "`
-
-,	// c" ++ [8287]%N ++ runes_of_ascii "
-}
-")).
-Eval vm_compute in ("<<<M276>>>" ++ check (runes_of_ascii "MetaData repeatCount { }
-//	t
-")).
-Eval vm_compute in ("<<<M381>>>" ++ check (runes_of_ascii "options{
-int
-=char[] ; }
-//
-")).
-Eval vm_compute in ("<<<M1566>>>" ++ check (runes_of_ascii "packet
+Eval vm_compute in ("<<<M1759>>>" ++ check (runes_of_ascii "packet
 A
-
-{ }  // c 
- 
-")).
-Eval vm_compute in ("<<<M1105>>>" ++ check (runes_of_ascii "MetaData // c
-tag { }")).
-Eval vm_compute in ("<<<M1865>>>" ++ check (runes_of_ascii "packet int {
-}
-//	t")).
-Eval vm_compute in ("<<<M1039>>>" ++ check (runes_of_ascii "packet A {
-}// c 	")).
-Eval vm_compute in ("<<<M1044>>>" ++ check (runes_of_ascii "packet A {
-}// c" ++ [8203]%N)).
-Eval vm_compute in ("<<<M297>>>" ++ check (runes_of_ascii "// " ++ [128512]%N ++ runes_of_ascii " emoji
-
+{ u8  x
+`d" ++ [12288]%N ++ runes_of_ascii "`
+    ,	// c" ++ [12288]%N ++ runes_of_ascii "
+  	}")).
+Eval vm_compute in ("<<<M357>>>" ++ check (runes_of_ascii "MetaData rootA
+{ options1 a1
+, }
 
 ")).
-Eval vm_compute in ("<<<M985>>>" ++ check (runes_of_ascii "// c" ++ [160]%N)).
-Eval vm_compute in ("<<<M19>>>" ++ check (runes_of_ascii "
+Eval vm_compute in ("<<<M5>>>" ++ check (runes_of_ascii "MetaData float  { uint16 float , }")).
+Eval vm_compute in ("<<<M1689>>>" ++ check (runes_of_ascii "packet A {
+    u8 x `d" ++ [8232]%N ++ runes_of_ascii "`,// c" ++ [8232]%N ++ runes_of_ascii "
+}")).
+Eval vm_compute in ("<<<M1740>>>" ++ check (runes_of_ascii "packet A {
+    u8 x `
+    `,
+}")).
+Eval vm_compute in ("<<<M175>>>" ++ check (runes_of_ascii "MetaData Foo
+    {
+    }
 ")).
+Eval vm_compute in ("<<<M32>>>" ++ check (runes_of_ascii "MetaData
+packetx { }
+")).
+Eval vm_compute in ("<<<M1945>>>" ++ check (runes_of_ascii "
+packet u8x 
+{ }
+
+")).
+Eval vm_compute in ("<<<M1071>>>" ++ check (runes_of_ascii "// c" ++ [65279]%N ++ runes_of_ascii "
+packet A {
+}")).
+Eval vm_compute in ("<<<M1168>>>" ++ check (runes_of_ascii "packet
+// c
+x { }")).
+Eval vm_compute in ("<<<M741>>>" ++ check (runes_of_ascii "u16 zchar {")).
+Eval vm_compute in ("<<<M1069>>>" ++ check (runes_of_ascii "// c" ++ [65279]%N)).
